@@ -77,6 +77,8 @@ static int propagate(int ss_written, int tt_written)
 	return 0;
 }
 
+/* witness ghosts for the native replay (native/a5replay_c20_history.h): the values of steps A and B */
+int w_s_null, w_t_null, w_b_null, w_b_is_tt; long w_s, w_t, w_b;
 void h_history(void)
 {
 	ss.type = CHAN_SINGLE; tt.type = CHAN_SINGLE; tr.type = CHAN_SINGLE;
@@ -88,6 +90,7 @@ void h_history(void)
 
 	/* step A */
 	struct value S = any_value(), T = any_value();
+	w_s_null = (S.type == VALUE_NULL); w_s = S.i; w_t_null = (T.type == VALUE_NULL); w_t = T.i;
 	ss.data.value = S; tt.data.value = T;
 	r = propagate(1, 1);
 	VASSERT(r == 0, "step A: propagation succeeds");
@@ -96,6 +99,7 @@ void h_history(void)
 #ifdef HIST_SS
 	struct value S2 = any_value();
 	__CPROVER_assume(!(S2.type == S.type && S2.i == S.i));
+	w_b_is_tt = 0; w_b_null = (S2.type == VALUE_NULL); w_b = S2.i;
 	ss.data.value = S2;
 	r = propagate(1, 0);
 	VASSERT(r == 0, "step B (subsystem changes): propagation succeeds");
@@ -105,6 +109,7 @@ void h_history(void)
 #else
 	struct value T2 = any_value();
 	__CPROVER_assume(!(T2.type == T.type && T2.i == T.i));
+	w_b_is_tt = 1; w_b_null = (T2.type == VALUE_NULL); w_b = T2.i;
 	tt.data.value = T2;
 	r = propagate(0, 1);
 	VASSERT(r == 0, "step B (task type changes): propagation succeeds");
